@@ -19,7 +19,10 @@ Inductive c18case :=
 | KReqs (server_mode bootstrap_empty : bool) (reqs : list reqobs)
 | KLook (server_mode : bool) (out_ro : list bool) (replies : list (bool * bool * bool))
 | KPutRo (mutable : bool) (sent : list N) (evs : list (bool * pevent)) (impl : option (outcome * N))
-| KAdapt (server_mode : bool) (own : maddr) (steps : list (aevent * amode * list maddr)).
+| KAdapt (server_mode : bool) (own : maddr) (steps : list (aevent * amode * list maddr))
+(* C15 across a re-key: a client was handed a token; (the node confirmed its public address and took the BEP42-valid id;)
+   less than a minute later the client writes with that token *)
+| KTokenRekey (issued rekeyed accepted : bool).
 
 Definition beqb (a b : bool) : bool := if a then b else negb b.
 
@@ -188,6 +191,8 @@ Definition check18 (c : c18case) : list N :=
       (if look_model server out_ro replies then [] else [1]) ++ (if look_pb server out_ro replies then [] else [2])
   | KPutRo mutable sent evs impl =>
       (if putro_model mutable sent evs impl then [] else [1]) ++ (if putro_pb mutable sent evs impl then [] else [2])
+  (* a token issued less than five minutes ago is valid, whatever happened to the node's id in between *)
+  | KTokenRekey issued _ accepted => if issued && accepted then [] else [2]
   | KAdapt server own steps =>
       (if adapt_model own (mode0 server) steps then [] else [1]) ++
       (if adapt_pb own server None false server steps then [] else [2])
